@@ -939,3 +939,19 @@ PROPS["C06"]["outside"] = ("size accounting over histories of several appends wi
 PROPS["C06"]["assumptions"] += _fs_assumptions
 PROPS["C06"]["level_note"] = "Trusted: Kani/CBMC/CaDiCaL, E3/E4 for the appender instances."
 
+
+# C11: the width parser on free digit strings (Parser::integer through Parser::parameters)
+PROPS["C11"]["functions"] = list(PROPS["C11"]["functions"]) + ["Parser::{parameters, integer} on digit strings (hook verif_parse_parameters)"]
+PROPS["C11"]["bounds"] += "; Parser::parameters on ':' + digits + '}': the 1000 strings around 2^64 - 1 (quick) and every digit string of length 20 and 21 (thorough)"
+PROPS["C11"]["harnesses"] = PROPS["C11"]["harnesses"] + [
+    H("c10_spec::digits_boundary3", instance="':18446744073709551' + 3 free digits + '}': across 2^64 - 1", symbolic="3 digits", bound="unwind 24", timeout=1500, mem_gb=10),
+    H("c10_spec::digits_boundary3_witness", kind="witness", timeout=1500, mem_gb=10),
+    H("c10_spec::digits20", tier="thorough", instance="':' + 20 free digits + '}'", symbolic="20 digits", bound="unwind 24", timeout=1500, mem_gb=10),
+    H("c10_spec::digits21", tier="thorough", instance="':' + 21 free digits + '}' (never fits)", symbolic="21 digits", bound="unwind 24", timeout=1500, mem_gb=10),
+]
+PROPS["C11"]["functions"] = ["PatternEncoder::new (Parser + From<Piece> for Chunk) on the two width skeletons", "Parser::{parameters, integer, consume} on digit strings (hook verif_parse_parameters)"]
+PROPS["C11"]["level_text"] = ("Bounded model checking of the real width parsing: constructing an encoder from the 20- / 22-digit width skeletons does not panic or overflow "
+                              "(every arithmetic and bounds check of the compiled code is an obligation), and for every digit string within the bounds "
+                              "Parser::parameters returns exactly the value when it fits usize and an error otherwise.")
+PROPS["C11"]["level_note"] = ("Trusted: Kani/CBMC/CaDiCaL. Kani models the dev profile (overflow checks on). PARTIAL: only 'absurd widths' of the statement is decided; "
+                              "totality of the parser on arbitrary strings and the {ERROR: ...} rendering are not (the parser on 3 free bytes ran 30 min without an answer, DESIGN.md 9.8).")
